@@ -207,7 +207,7 @@ pub trait ParamsSpec {
 pub enum HPS {}
 
 fn header_char(c: char) -> bool {
-    lookup_table!(c => alpha; num; '[', ']', '/', /*'=',*/ ':', '+', '$', '-', '_', '.', '!', '~', '*', '\'', '(', ')')
+    lookup_table!(c => alpha; num; '%', '[', ']', '/', /*'=',*/ ':', '+', '$', '-', '_', '.', '!', '~', '*', '\'', '(', ')')
 }
 
 encode_set!(header_char, HPS_SET);
